@@ -40,8 +40,22 @@ def run(env, tier, seed, broken=None):
         texts.append('%s f(%s) { %s p1; }' % (FUN, ', '.join(ps), RETURN))
         texts.append('%s f(%s\n) { %s p1; }' % (FUN, ', '.join(ps), RETURN))
         texts.append('%s f(%s\n, extra) { }' % (FUN, ',\n'.join(ps)))
+        # the grammar bounds parameters only: arguments, elements, properties, declarators, statements are unbounded
+        nums = ', '.join(str(i) for i in range(1, np + 1))
+        texts += ['f(%s);' % nums, '%s %s(%s);' % (PRINT, MAX, nums), 'f(1)(%s);' % nums, '%s [%s];' % (PRINT, nums), 'x = [%s][0];' % nums,
+                  '%s {%s};' % (PRINT, ', '.join('k%d: %d' % (i, i) for i in range(1, np + 1))), '%s %s;' % (VAR, ', '.join('v%d = %d' % (i, i) for i in range(1, np + 1))),
+                  '{ ' + '1; ' * np + '}', 'f(%s' % nums, '[%s' % nums]
     for sp in ['\x00', '\u00a0', '\u2028', '\x0b']:
         texts += ['%s 1; // c %s (\n%s 2;' % (PRINT, sp, PRINT), '%s 1; /* c %s ( */ %s 2;' % (PRINT, sp, PRINT), '%s "a%sb";' % (PRINT, sp), 'x =%s1;' % sp, 'x = %s1;' % sp, 'x = 1 %s;' % sp]
+    # every built-in name and every keyword in every binding position (declarator 1..3 of a list, for-initialiser,
+    # function name, parameter, assignment target, property name, object key, label of a call)
+    for nm in list(lang.NAT.values()) + list(lang.KW.values()):
+        for t in ['%s @;', '%s @ = 1;', '%s a = 1, @ = 2;', '%s a, @;', '%s a = 1, b = 2, @ = 3;', '%s a = 1, @ = 2, c = 3;', '%s @ = 1, b = 2;',
+                  FOR + ' (%s @ = 0; 0; ) {}', FOR + ' (%s i = 0, @ = 1; 0; ) {}', FOR + ' (%s i = 0, j = 1, @; 0; ) {}']:
+            texts.append((t % VAR).replace('@', nm))
+        for t in [FUN + ' @() {}', FUN + ' f(@) {}', FUN + ' f(a, @) {}', FUN + ' f(a, @, c) {}', '@ = 1;', 'o.@;', 'o.@ = 1;', PRINT + ' {@: 1};', PRINT + ' {a: 1, @: 2};',
+                  '@(1);', '{ ' + FUN + ' @() {} }', FUN + ' g() { ' + FUN + ' @() {} }', FUN + ' g() { ' + VAR + ' a = 1, @ = 2; }']:
+            texts.append(t.replace('@', nm))
     # token sequences: depth-first, all of length <= 3 (4 in thorough), random of length 4..14
     for n in (3,) if tier == 'quick' else (3, 4):
         for t in itertools.product(TOKS, repeat=n):
